@@ -259,6 +259,37 @@ package lungo
 //@   loop 1 invariant cap(ttlIndexes) == 0 || fresh(ttlIndexes)
 //@   loop 2 invariant true
 
+// file.go: a catalog rebuilt from a file consists of coherent collections (C15:
+// "... and reloads"; C06 as far as the structure goes): every collection is a
+// fresh one whose set holds exactly the documents of the file entry and whose
+// indexes each cover exactly those documents.
+//@ define wfIndexR(i) = i != nil && i.base != nil && i.base.btree != nil
+//@ define inFile(l, d) = exists(j, 0, len(l), spec.witness(j) && l[j] == d)
+//@ define coherentColl(c) = c != nil && c.Documents != nil && c.Indexes != nil && wfDocsR(c.Documents) &&
+//@   all(n, Str, imp(has(c.Indexes, n), wfIndexR(c.Indexes[n]) && all(d, Ref, imp(spec.witness(d), ghost.cov[c.Indexes[n]][d] == has(c.Documents.Index, d)))))
+//@ define partsBefore(c, t) = alloc(c) < t && alloc(c.Documents) < t && alloc(c.Indexes) < t && alloc(c.Documents.Index) < t && (cap(c.Documents.List) == 0 || alloc(c.Documents.List.base) < t) &&
+//@   all(n, Str, imp(has(c.Indexes, n), alloc(c.Indexes[n]) < t && alloc(c.Indexes[n].base) < t && alloc(c.Indexes[n].base.btree) < t))
+//@ func NewCatalog
+//@   tags C15 C06 C03
+//@   modifies ghost.cov, ghost.tree, ghost.tainted
+//@   ensures [C15,C03 name=fresh] result != nil && fresh(result) && result.Namespaces != nil && fresh(result.Namespaces) && allocated(result.Namespaces)
+//@   ensures [C15,C06 name=only-the-oplog] all(h, "(Array Int Str)", imp(has(result.Namespaces, h), fresh(result.Namespaces[h]) && coherentColl(result.Namespaces[h]) && partsBefore(result.Namespaces[h], clock())))
+//@ func (*File).BuildCatalog
+//@   tags C15 C06
+//@   opt loopframe = on
+//@   locals catalog namespace ns handle index name
+//@   requires f != nil
+//@   modifies ghost.cov, ghost.tree, ghost.tainted
+//@   ensures [C15,C06 name=rebuilt-coherent] imp(err == nil, result0 != nil && fresh(result0) && result0.Namespaces != nil && all(h, "(Array Int Str)", imp(has(result0.Namespaces, h), fresh(result0.Namespaces[h]) && coherentColl(result0.Namespaces[h]))))
+//@   loop 0 invariant catalog != nil && fresh(catalog) && catalog.Namespaces != nil && fresh(catalog.Namespaces) && allocated(catalog) && allocated(catalog.Namespaces)
+//@   loop 0 invariant all(h, "(Array Int Str)", imp(has(catalog.Namespaces, h), fresh(catalog.Namespaces[h]) && coherentColl(catalog.Namespaces[h]) && partsBefore(catalog.Namespaces[h], clock())))
+//@   loop 1 invariant catalog != nil && fresh(catalog) && catalog.Namespaces != nil && fresh(catalog.Namespaces) && alloc(catalog) < alloc(namespace) && alloc(catalog.Namespaces) < alloc(namespace) && allocated(namespace)
+//@   loop 1 invariant all(h, "(Array Int Str)", imp(has(catalog.Namespaces, h), fresh(catalog.Namespaces[h]) && coherentColl(catalog.Namespaces[h]) && partsBefore(catalog.Namespaces[h], alloc(namespace))))
+//@   loop 1 invariant partsBefore(namespace, clock()) && alloc(namespace.Documents) > alloc(namespace) && alloc(namespace.Indexes) > alloc(namespace)
+//@   loop 1 invariant namespace != nil && fresh(namespace) && namespace.Documents != nil && fresh(namespace.Documents) && wfDocsR(namespace.Documents) && namespace.Indexes != nil && fresh(namespace.Indexes)
+//@   loop 1 invariant all(d, Ref, imp(spec.witness(d), has(namespace.Documents.Index, d) == inFile(ns.Documents, d)))
+//@   loop 1 invariant all(n, Str, imp(has(namespace.Indexes, n), wfIndexR(namespace.Indexes[n]) && fresh(namespace.Indexes[n]) && all(d, Ref, imp(spec.witness(d), ghost.cov[namespace.Indexes[n]][d] == inFile(ns.Documents, d)))))
+
 // ---------------------------------------------------------------------------
 // utils.go / session.go: every way of running a write finishes it. The callback
 // is assumed not to touch the engine's transaction slot or the session's
